@@ -7,6 +7,22 @@ VERIF = os.path.dirname(os.path.dirname(os.path.abspath(__file__)))
 SRC = "/tmp/mut"
 
 NEEDS = {
+ "C01e": "a cw20-LP pool and the direct ExecuteMsg::WithdrawLiquidity{} entry with one coin of any denom (amount <= the pair's own locked LP)",
+ "C01f": "non-zero uncollected protocol fees when QueryMsg::Pool is asked (reported reserves include the owed fees)",
+ "C02e": "uncollected protocol fees accrued by an earlier swap, then a ReverseSimulation",
+ "C02f": "an owner UpdateConfig whose three fee shares are each below 100% but sum to >= 100%",
+ "C03e": "a position withdrawn in many small pieces whose share of the reserves is fractional",
+ "C03f": "a large swap skewing the stableswap pool, then a deposit that brings it back towards balance",
+ "C04e": "two fee collections on the same 3pool with fee-generating swaps in between",
+ "C04f": "a Simulation query on an imbalanced 3pool while an amplification ramp is in progress",
+ "C05e": "a forged direct ExecuteMsg::Receive on the vault with the caller's own address as Cw20ReceiveMsg.sender, amount <= the locked 1000 LP",
+ "C05f": "burn fee larger than the flash-loan fee and a borrower repaying principal + protocol + flash-loan fee but not the burn fee (two cooperating lines)",
+ "C06e": "a vault whose flash-loan fee share differs from its protocol fee share",
+ "C06f": "router proceeds exceeding the quoted payback by exactly one base unit",
+ "C07e": "a first loan leaving a pending protocol fee, no collection, then a second loan under-repaid by up to that amount",
+ "C07f": "a StableSwap pair whose protocol-fee share differs from its swap-fee share",
+ "C08e": "the same address touching the same denom twice in one block, the second touch being a Bond",
+ "C08f": "paginating the Unbonding query with start_after equal to an existing record's timestamp",
  "C06c": "a router loan that leaves strictly more than the quoted payback in the router (a profitable borrower); the surplus then goes to the vault instead of the initiator",
  "C06d": "a nested loan on the same vault repaid inside the outer loan's callback, followed by a Deposit while the outer loan is still open",
  "C11c": "a user closing a second position (different unbonding duration) before withdrawing the first",
